@@ -321,7 +321,8 @@ pub fn gen_history(r: &mut Rng) -> Gen {
         if entries.iter().any(|(x, _)| lower(x) == lower(&a)) {
             continue;
         }
-        let len = *r.pick(&[0usize, 1, 2, 4, 16, 20, 32, 64]);
+        // (rarely: digests around 128 and 256 bytes, i.e. 256 and 512 hex digits)
+        let len = if r.chance(1, 12) { *r.pick(&[127usize, 128, 129, 200, 255, 256, 257, 1000]) } else { *r.pick(&[0usize, 1, 2, 4, 16, 20, 32, 64]) };
         entries.push((a, (0..len).map(|_| r.below(256) as u8).collect()));
     }
     // siblings: names that share a long prefix with a name already drawn and differ in the
